@@ -5,9 +5,14 @@
  *
  *   C <kind h|s> <max> <volatile> <flapping> [<check_interval s> [<scheduling offset>]]   (defaults 300, 0)
  *   R <state> <dt> <active> | <accepted> <state> <stype> <attempt> ; env: <reach> <indt> <acked> <wasflap> <isflap> <paused> ; <sup> <sbs> ; <notifs>
- *   F <dt> <viaTimer>      | env: <fired> <paused> <enabled> <statesupp> <indt> <isflap> <active_checks> <interval us> <next_check-now us> <parentrecent> ; <sup> <sbs> ; <IsLikelyToBeCheckedSoon()> ; <notifs>
+ *   F <dt> <viaTimer>      | env: <fired> <paused> <enabled> <statesupp> <indt> <isflap> <active_checks> <interval us> <next_check-now us> <parentrecent> ; <sup> <sbs> ; <IsLikelyToBeCheckedSoon()> ; <notifs> ; <IsAcknowledged() before the handler>
  *   D+ <i> / D- <i>        downtime i (0/1) registered+triggered / removed
- *   A+ <sticky> <expiry-dt> / A-   acknowledge (expiry relative, 0 = none) / clear
+ *   A+ <sticky> <expiry-dt> / A-   acknowledge (expiry relative, 0 = none) as the API action does (refused for OK / already
+ *                          acknowledged objects) / clear                       | <applied> <IsAcknowledged() after>
+ *   A! <sticky> <expiry-dt>  Checkable::AcknowledgeProblem() called directly, also on an object that is acknowledged already
+ *                          (two API requests racing past the unlocked IsAcknowledged() test)   | 1 <IsAcknowledged() after>
+ *   Q+ <disable_notifications> / Q-   a second Dependency (parent: a second host, state filter Up) attached / detached
+ *   Q <state>              that second parent gets a hard result
  *   P <state>              parent (host of the service / parent host of the host) gets a hard result
  *   U <0|1>                authority (0 = paused)
  *   N <0|1>                enable_notifications
@@ -39,6 +44,8 @@ static int l_CaseNo = 0;
 
 struct World {
 	Host::Ptr parent;      /* host of the service, or parent host of the host */
+	Host::Ptr parent2;     /* parent of the optional second dependency */
+	Dependency::Ptr dep2;
 	Host::Ptr host;        /* the host (kind h) */
 	Service::Ptr service;  /* the service (kind s) */
 	Dependency::Ptr dep;
@@ -60,6 +67,11 @@ static void Teardown()
 			l_W.dt[i] = nullptr;
 		}
 	}
+	if (l_W.dep2) {
+		l_W.dep2->GetChild()->RemoveDependency(l_W.dep2);
+		l_W.dep2->GetParent()->RemoveReverseDependency(l_W.dep2);
+		l_W.dep2 = nullptr;
+	}
 	if (l_W.dep) {
 		l_W.dep->GetChild()->RemoveDependency(l_W.dep);
 		l_W.dep->GetParent()->RemoveReverseDependency(l_W.dep);
@@ -69,6 +81,7 @@ static void Teardown()
 	if (l_W.service) { l_W.service->Unregister(); }
 	if (l_W.host) { l_W.host->SetActive(false); l_W.host->Unregister(); }
 	if (l_W.parent) { l_W.parent->SetActive(false); l_W.parent->Unregister(); }
+	if (l_W.parent2) { l_W.parent2->SetActive(false); l_W.parent2->Unregister(); }
 	l_W = World();
 	l_Obj = nullptr;
 }
@@ -90,6 +103,15 @@ static void Setup(bool isHost, int mx, bool vol, bool flap, int interval, long o
 	l_W.parent->Activate();
 	l_W.parent->SetAuthority(true);
 	static_pointer_cast<ConfigObject>(l_W.parent)->OnAllConfigLoaded();
+
+	l_W.parent2 = new Host();
+	l_W.parent2->SetName("c02-parentb-" + sfx);
+	l_W.parent2->SetActive(true);
+	l_W.parent2->SetMaxCheckAttempts(1);
+	l_W.parent2->Register();
+	l_W.parent2->Activate();
+	l_W.parent2->SetAuthority(true);
+	static_pointer_cast<ConfigObject>(l_W.parent2)->OnAllConfigLoaded();
 
 	if (isHost) {
 		l_W.host = new Host();
@@ -150,6 +172,9 @@ static bool ParentRecoveryRecent()
 	/* the service's host resp. the host's parent */
 	if (!l_W.parent->GetProblem() && l_W.parent->GetLastStateChange() >= threshold)
 		return true;
+	/* the parent of the second dependency, while it is attached */
+	if (l_W.dep2 && !l_W.parent2->GetProblem() && l_W.parent2->GetLastStateChange() >= threshold)
+		return true;
 	return false;
 }
 
@@ -180,6 +205,7 @@ static void OpFire(long long dt, int viaTimer)
 	/* the suppression reasons of the property, from the primitive predicates (not from
 	 * NotificationReasonSuppressed(), which is part of the code under test) */
 	int statesupp = (!l_W.obj->IsReachable(DependencyNotification) || l_W.obj->IsInDowntime() || l_W.obj->IsAcknowledged()) ? 1 : 0;
+	int ackedBefore = l_W.obj->IsAcknowledged() ? 1 : 0;
 	int indt = l_W.obj->IsInDowntime() ? 1 : 0;
 	int isflap = l_W.obj->IsFlapping() ? 1 : 0;
 	int likely = l_W.obj->IsLikelyToBeCheckedSoon() ? 1 : 0;
@@ -195,9 +221,9 @@ static void OpFire(long long dt, int viaTimer)
 	} else {
 		l_W.obj->FireSuppressedNotifications();
 	}
-	printf("F %lld %d | %d %d %d %d %d %d %d %lld %lld %d ; %d %d ; %d ; %s\n", dt, viaTimer, fired, paused, enabled, statesupp, indt, isflap,
+	printf("F %lld %d | %d %d %d %d %d %d %d %lld %lld %d ; %d %d ; %d ; %s ; %d\n", dt, viaTimer, fired, paused, enabled, statesupp, indt, isflap,
 		act, ivl, nin, precent,
-		(int)l_W.obj->GetSuppressedNotifications(), (int)l_W.obj->GetStateBeforeSuppression(), likely, NotifStr().c_str());
+		(int)l_W.obj->GetSuppressedNotifications(), (int)l_W.obj->GetStateBeforeSuppression(), likely, NotifStr().c_str(), ackedBefore);
 }
 
 struct FEnvRec { int paused, enabled, statesupp, indt, isflap, act; long long ivl, nin; int precent; };
@@ -292,18 +318,55 @@ static void OpDowntime(int i, bool add, bool flexible = false)
 	}
 }
 
-static void OpAck(bool set, int sticky, long long expiryDt)
+static void OpAck(bool set, int sticky, long long expiryDt, bool direct = false)
 {
 	if (set) {
-		/* as the API action does: only problems that are not acknowledged yet */
-		if (!l_W.obj->IsStateOK(l_W.obj->GetStateRaw()) && !l_W.obj->IsAcknowledged())
+		int applied = 0;
+		/* A+: as the API action does, only problems that are not acknowledged yet; A!: the public function itself */
+		if (direct || (!l_W.obj->IsStateOK(l_W.obj->GetStateRaw()) && !l_W.obj->IsAcknowledged())) {
 			l_W.obj->AcknowledgeProblem("harness", "ack", sticky ? AcknowledgementSticky : AcknowledgementNormal, false, false,
 				(double)l_Now, expiryDt ? (double)(l_Now + expiryDt) : 0);
-		printf("A+ %d %lld |\n", sticky, expiryDt);
+			applied = 1;
+		}
+		printf("%s %d %lld | %d %d\n", direct ? "A!" : "A+", sticky, expiryDt, applied, l_W.obj->IsAcknowledged() ? 1 : 0);
 	} else {
 		l_W.obj->ClearAcknowledgement("harness");
-		printf("A- |\n");
+		printf("A- | 1 %d\n", l_W.obj->IsAcknowledged() ? 1 : 0);
 	}
+}
+
+static void OpDep2(bool add, int disableNotifications)
+{
+	if (add) {
+		if (!l_W.dep2) {
+			Dependency::Ptr d = new Dependency();
+			d->SetParent(l_W.parent2);
+			d->SetChild(l_W.obj);
+			d->SetName("c02-depb-" + std::to_string(l_CaseNo) + "!" + l_W.obj->GetName());
+			d->SetStateFilter(StateFilterUp);
+			d->SetDisableNotifications(disableNotifications != 0);
+			d->SetRedundancyGroup("");
+			l_W.obj->AddDependency(d);
+			l_W.parent2->AddReverseDependency(d);
+			l_W.dep2 = d;
+		}
+		printf("Q+ %d |\n", disableNotifications);
+	} else {
+		if (l_W.dep2) {
+			l_W.dep2->GetChild()->RemoveDependency(l_W.dep2);
+			l_W.dep2->GetParent()->RemoveReverseDependency(l_W.dep2);
+			l_W.dep2 = nullptr;
+		}
+		printf("Q- |\n");
+	}
+}
+
+static void OpParent2(int state)
+{
+	l_Notifs.clear();
+	CheckResult::Ptr cr = MakeCr((ServiceState)state, (double)l_Now, (double)l_Now, true);
+	l_W.parent2->ProcessCheckResult(cr);
+	printf("Q %d |\n", state);
 }
 
 static void OpParent(int state)
@@ -339,6 +402,14 @@ static bool ExecLine(const char *line)
 		OpDowntime(a & 1, false);
 	} else if (sscanf(line, "A+ %d %lld", &a, &y) == 2) {
 		OpAck(true, a, y);
+	} else if (sscanf(line, "A! %d %lld", &a, &y) == 2) {
+		OpAck(true, a, y, true);
+	} else if (sscanf(line, "Q+ %d", &a) == 1) {
+		OpDep2(true, a);
+	} else if (!strncmp(line, "Q-", 2)) {
+		OpDep2(false, 0);
+	} else if (sscanf(line, "Q %d", &a) == 1) {
+		OpParent2(a);
 	} else if (!strncmp(line, "A-", 2)) {
 		OpAck(false, 0, 0);
 	} else if (sscanf(line, "P %d", &a) == 1) {
@@ -376,8 +447,14 @@ static const int kAlphabetN = sizeof(kAlphabet) / sizeof(kAlphabet[0]);
 
 static void RandomOp(Rng& rng, char *buf, size_t n, int pFlapBias)
 {
-	int k = (int)rng.below(100);
-	if (k < 45) {
+	int k = (int)rng.below(109);
+	if (k >= 100) {
+		static const int ex[] = {0, 0, 5, 30, 100};
+		if (k < 102) snprintf(buf, n, "Q+ %d", (int)rng.below(2));
+		else if (k < 103) snprintf(buf, n, "Q-");
+		else if (k < 106) snprintf(buf, n, "Q %d", (int)rng.below(2) ? 2 : 0);
+		else snprintf(buf, n, "A! %d %d", (int)rng.below(2), ex[rng.below(5)]);
+	} else if (k < 45) {
 		int st;
 		if (pFlapBias && rng.below(3)) st = (int)rng.below(2) ? 0 : 2; /* alternate to trigger flapping */
 		else st = (int)rng.below(4);
@@ -484,6 +561,86 @@ int main(int argc, char **argv)
 					ExecLine("X 100000");
 					ExecLine("F 5 0");
 				}
+			}
+		}
+		/* a second dependency with disable_notifications off / on whose parent fails and recovers: unreachable, but
+		 * (with the setting off) not for notifications.  All sequences of length 3 over 9 operations. */
+		{
+			static const char *const al[] = {"R 0 10 1", "R 2 10 1", "R 1 10 1", "Q 2", "Q 0", "F 400 0", "D+ 0", "D- 0", "P 2"};
+			const int an = 9, LL = thorough ? 4 : 3;
+			long tot = 1;
+			for (int i = 0; i < LL; i++) tot *= an;
+			for (int host = 0; host < 2; host++)
+			for (int dn = 0; dn < 2; dn++)
+			for (int mx = 1; mx <= 2; mx++)
+			for (int vol = 0; vol < 2; vol++)
+			for (int down = 0; down < 2; down++)
+			for (long code = 0; code < tot; code++) {
+				char buf[64];
+				snprintf(buf, sizeof buf, "C %c %d %d 0", host ? 'h' : 's', mx, vol);
+				ExecLine(buf);
+				ExecLine("R 0 10 1");
+				snprintf(buf, sizeof buf, "Q+ %d", dn);
+				ExecLine(buf);
+				ExecLine(down ? "Q 2" : "Q 0");
+				long c = code;
+				for (int i = 0; i < LL; i++) { ExecLine(al[c % an]); c /= an; }
+				ExecLine("D- 0");
+				ExecLine("P 0");
+				ExecLine("F 1 0");
+				ExecLine("R -1 10 1");
+				ExecLine("F 400 0");
+				ExecLine("Q 0");
+				ExecLine("R -1 10 1");
+				ExecLine("F 400 1");
+			}
+		}
+		/* authority and the notification switch: results and handler runs while paused / switched off, then the
+		 * tail with authority back.  All sequences of length 3 (4) over 10 operations. */
+		{
+			static const char *const al[] = {"R 0 10 1", "R 2 10 1", "R 3 10 1", "D+ 0", "D- 0", "U 0", "U 1", "N 0", "N 1", "F 400 0"};
+			const int an = 10, LL = thorough ? 4 : 3;
+			long tot = 1;
+			for (int i = 0; i < LL; i++) tot *= an;
+			for (int host = 0; host < 2; host++)
+			for (int mx = 1; mx <= 2; mx++)
+			for (int pre = 0; pre < 2; pre++)
+			for (long code = 0; code < tot; code++) {
+				char buf[64];
+				snprintf(buf, sizeof buf, "C %c %d 0 0", host ? 'h' : 's', mx);
+				ExecLine(buf);
+				ExecLine("R 0 10 1");
+				if (pre) { ExecLine("D+ 0"); ExecLine("R 2 10 1"); ExecLine("R 2 10 1"); }   /* a Problem is withheld already */
+				long c = code;
+				for (int i = 0; i < LL; i++) { ExecLine(al[c % an]); c /= an; }
+				ExecLine("D- 0");
+				ExecLine("F 400 0");
+				ExecLine("U 1");
+				ExecLine("N 1");
+				ExecLine("F 400 0");
+				ExecLine("R -1 10 1");
+				ExecLine("F 400 1");
+			}
+		}
+		/* acknowledgements: set through the API-like path and directly (also on top of one in place), with and
+		 * without expiry, sticky and normal, cleared, expired, ended by state changes.  All sequences of length 4
+		 * over 12 operations on a hard CRITICAL object. */
+		{
+			static const char *const al[] = {"A! 0 0", "A! 1 0", "A! 1 50", "A! 0 50", "A+ 1 20", "A+ 0 0", "A-",
+				"R 2 10 1", "R 1 10 1", "R 0 10 1", "F 30 0", "F 100 0"};
+			const int an = 12, LL = thorough ? 5 : 4;
+			long tot = 1;
+			for (int i = 0; i < LL; i++) tot *= an;
+			for (int host = 0; host < 2; host++)
+			for (long code = 0; code < tot; code++) {
+				ExecLine(host ? "C h 1 0 0" : "C s 1 0 0");
+				ExecLine("R 0 10 1");
+				ExecLine("R 2 10 1");
+				long c = code;
+				for (int i = 0; i < LL; i++) { ExecLine(al[c % an]); c /= an; }
+				ExecLine("F 400 0");
+				ExecLine("R -1 10 1");
+				ExecLine("F 400 1");
 			}
 		}
 		/* the handler with a result processed by "another thread" in the middle of it (F-C02c): one FR per case */
